@@ -27,9 +27,13 @@ import (
 
 	"github.com/go-kit/log"
 	metallbv1beta1 "go.universe.tf/metallb/api/v1beta1"
+	metallbv1beta2 "go.universe.tf/metallb/api/v1beta2"
 	"go.universe.tf/metallb/internal/config"
+	corev1 "k8s.io/api/core/v1"
 	"k8s.io/apimachinery/pkg/types"
 	"k8s.io/client-go/kubernetes/scheme"
+	"sigs.k8s.io/controller-runtime/pkg/client"
+	"sigs.k8s.io/controller-runtime/pkg/client/interceptor"
 	"sigs.k8s.io/controller-runtime/pkg/reconcile"
 )
 
@@ -75,7 +79,14 @@ func vCorpus() []vSnap {
 		BGP: []vBGP{{Name: 1, LP: 0}, {Name: 2, LP: 0}, {Name: 0, LP: 0}}}
 	// F2: four pools pinned to the same namespace
 	f2 := vSnap{Modelled: true, Pools: []vPool{mkpool(0, 0, []int{1}), mkpool(1, 1, []int{1}), mkpool(2, 2, []int{1, 2}), mkpool(3, 3, []int{1, 2})}}
-	return []vSnap{f1, f2}
+	// seeded/C18-1: a dual-stack pool and two advertisements with different local preferences
+	// whose aggregation length differs in IPv4 only: must be rejected on every computation
+	a4 := vAddr{Kind: 0, Fam: 4, Fam2: 4, A: fmt.Sprint(0x0a141e00), Len: 24, Text: "10.20.30.0/24"}
+	a6 := vAddr{Kind: 0, Fam: 6, Fam2: 6, A: "334965454937798799971759379190646833152", Len: 112, Text: "fc00::/112"}
+	i24 := 24
+	f3 := vSnap{Modelled: true, DualClash: 2, Nodes: []vNode{{Name: 0}, {Name: 1}}, Pools: []vPool{{Name: 0, Addrs: []vAddr{a4, a6}}},
+		BGP: []vBGP{{Name: 0, LP: 100, Agg4: &i24}, {Name: 1, LP: 200}}}
+	return []vSnap{f1, f2, f3}
 }
 
 func vDiffPart(a, b *config.Config) string {
@@ -114,7 +125,7 @@ func TestVerifOrder(t *testing.T) {
 	if vThorough() {
 		nperm = 60
 	}
-	var snaps []vSnap
+	var snaps, replayed []vSnap
 	if p := os.Getenv("VERIF_REPLAY"); p != "" {
 		var f struct {
 			Replay struct {
@@ -124,12 +135,22 @@ func TestVerifOrder(t *testing.T) {
 		b, err := os.ReadFile(p)
 		if err == nil && json.Unmarshal(b, &f) == nil {
 			snaps = append(snaps, f.Replay.Snap)
+			replayed = append(replayed, f.Replay.Snap)
 			n = 0
 		}
 	}
 	snaps = append(snaps, vCorpus()...)
 	for i := 0; i < n; i++ {
-		snaps = append(snaps, vGenSnap(r, vGenOpts{MinObj: 3, MaxObj: 6, Wild: i%10 >= 7}))
+		o := vGenOpts{MinObj: 3, MaxObj: 6, Wild: i%10 >= 7}
+		if i%10 == 3 {
+			// acceptance hinges on how isAggrLengthDifferent sees a dual-stack pool: two
+			// advertisements with different local preferences, aggregation lengths differing
+			// in none / IPv4 only / IPv6 only / both families
+			o.DualClash = 1 + (i/10)%8
+		}
+		sn := vGenSnap(r, o)
+		sn.DualClash = o.DualClash
+		snaps = append(snaps, sn)
 	}
 	id := 0
 	for _, s := range snaps {
@@ -142,6 +163,14 @@ func TestVerifOrder(t *testing.T) {
 			out.Stat("accepted", 1)
 		} else {
 			out.Stat("rejected", 1)
+		}
+		if s.DualClash > 0 {
+			k := []string{"none", "ipv4_only", "ipv6_only", "both"}[(s.DualClash-1)%4]
+			if err0 == nil {
+				out.Stat("dualclash_lengths_differ_in_"+k+"_accepted", 1)
+			} else {
+				out.Stat("dualclash_lengths_differ_in_"+k+"_rejected", 1)
+			}
 		}
 		if len(s.Pools) >= 3 && len(s.BGP) >= 3 {
 			out.Stat("three_or_more_objects", 1)
@@ -228,20 +257,46 @@ func TestVerifOrder(t *testing.T) {
 			out.Case(id, "toconfig", cCtor("CToConfig", cNi(id), vSnapCoq(s), res), map[string]any{"snap": s, "accepted": err0 == nil})
 		}
 	}
-	vReconcilerSkips(t, out, r)
+	vReconcilerSkips(t, out, r, append(replayed, vCorpus()[1]))
 }
 
 // reconcilers skip the handler when the new configuration equals the current
-// one: the real ConfigReconciler / PoolReconciler on a fake API server; the
-// second and third reconcile of an unchanged snapshot must not call the handler.
-func vReconcilerSkips(t *testing.T, out *vOut, r *rand.Rand) {
+// one: the REAL ConfigReconciler and PoolReconciler on a fake API server whose
+// List order the test controls (as listed, reversed, shuffled - the API server
+// and the informer cache guarantee no order).  Of several reconciles of an
+// unchanged snapshot only the first may call the handler / force a re-sync,
+// and a fresh reconciler (controller restart) fed another list order must hand
+// its handler a value DeepEqual to the first one's.
+func vShuf[T any](items []T, mode int, r *rand.Rand) {
+	switch mode {
+	case 1:
+		for i, j := 0, len(items)-1; i < j; i, j = i+1, j-1 {
+			items[i], items[j] = items[j], items[i]
+		}
+	case 2:
+		r.Shuffle(len(items), func(i, j int) { items[i], items[j] = items[j], items[i] })
+	}
+}
+
+func vReconcilerSkips(t *testing.T, out *vOut, r *rand.Rand, first []vSnap) {
+	snaps := append([]vSnap(nil), first...)
 	for k := 0; k < 6; k++ {
-		var s vSnap
 		for {
-			s = vGenSnap(r, vGenOpts{MinObj: 3, MaxObj: 5})
+			s := vGenSnap(r, vGenOpts{MinObj: 3, MaxObj: 5})
 			if _, err := vToConfig(vBuild(s), config.DontValidate); err == nil {
+				snaps = append(snaps, s)
 				break
 			}
+		}
+	}
+	for _, s := range snaps {
+		base, err := vToConfig(vBuild(s), config.DontValidate)
+		if err != nil {
+			continue
+		}
+		shared := false
+		for _, l := range base.Pools.ByNamespace {
+			shared = shared || len(l) >= 2
 		}
 		res := vBuild(s)
 		for i := range res.Pools {
@@ -262,36 +317,95 @@ func vReconcilerSkips(t *testing.T, out *vOut, r *rand.Rand) {
 		for i := range res.Communities {
 			res.Communities[i].Namespace = testNamespace
 		}
-		fc, err := newFakeClient(objectsFromResources(res))
+		fc0, err := newFakeClient(objectsFromResources(res))
 		if err != nil {
 			t.Fatalf("fake client: %v", err)
 		}
-		calls, reloads := 0, 0
-		cr := &ConfigReconciler{Client: fc, Logger: log.NewNopLogger(), Scheme: scheme.Scheme, Namespace: testNamespace,
-			ValidateConfig: config.DontValidate,
-			Handler:        func(log.Logger, *config.Config) SyncState { calls++; return SyncStateReprocessAll },
-			ForceReload:    func() { reloads++ }}
-		pcalls, preloads := 0, 0
-		pr := &PoolReconciler{Client: fc, Logger: log.NewNopLogger(), Scheme: scheme.Scheme, Namespace: testNamespace,
-			ValidateConfig: config.DontValidate,
-			Handler:        func(log.Logger, *config.Pools) SyncState { pcalls++; return SyncStateReprocessAll },
-			ForceReload:    func() { preloads++ }}
+		mode := 0
+		fc := interceptor.NewClient(fc0, interceptor.Funcs{
+			List: func(ctx context.Context, c client.WithWatch, list client.ObjectList, opts ...client.ListOption) error {
+				if err := c.List(ctx, list, opts...); err != nil {
+					return err
+				}
+				switch l := list.(type) {
+				case *metallbv1beta1.IPAddressPoolList:
+					vShuf(l.Items, mode, r)
+				case *metallbv1beta1.CommunityList:
+					vShuf(l.Items, mode, r)
+				case *metallbv1beta1.BGPAdvertisementList:
+					vShuf(l.Items, mode, r)
+				case *metallbv1beta1.L2AdvertisementList:
+					vShuf(l.Items, mode, r)
+				case *metallbv1beta1.BFDProfileList:
+					vShuf(l.Items, mode, r)
+				case *metallbv1beta2.BGPPeerList:
+					vShuf(l.Items, mode, r)
+				case *corev1.NamespaceList:
+					vShuf(l.Items, mode, r)
+				case *corev1.NodeList:
+					vShuf(l.Items, mode, r)
+				}
+				return nil
+			}})
 		req := reconcile.Request{NamespacedName: types.NamespacedName{Namespace: testNamespace, Name: "unrelated"}}
-		for i := 0; i < 4; i++ {
-			if _, err := cr.Reconcile(context.TODO(), req); err != nil {
-				t.Fatalf("reconcile: %v", err)
+		replay := map[string]any{"snap": s}
+		modes := []int{0, 1, 2, 2, 2, 0}
+		var cfgs []*config.Config
+		var pools []*config.Pools
+		// two generations of reconcilers: the second is a restarted controller that sees the
+		// objects in another order first
+		for gen := 0; gen < 2; gen++ {
+			calls, reloads, pcalls, preloads := 0, 0, 0, 0
+			cr := &ConfigReconciler{Client: fc, Logger: log.NewNopLogger(), Scheme: scheme.Scheme, Namespace: testNamespace,
+				ValidateConfig: config.DontValidate,
+				Handler:        func(_ log.Logger, c *config.Config) SyncState { calls++; cfgs = append(cfgs, c); return SyncStateReprocessAll },
+				ForceReload:    func() { reloads++ }}
+			pr := &PoolReconciler{Client: fc, Logger: log.NewNopLogger(), Scheme: scheme.Scheme, Namespace: testNamespace,
+				ValidateConfig: config.DontValidate,
+				Handler:        func(_ log.Logger, p *config.Pools) SyncState { pcalls++; pools = append(pools, p); return SyncStateReprocessAll },
+				ForceReload:    func() { preloads++ }}
+			for i := range modes {
+				mode = modes[(i+gen)%len(modes)]
+				if _, err := cr.Reconcile(context.TODO(), req); err != nil {
+					t.Fatalf("reconcile: %v", err)
+				}
+				if _, err := pr.Reconcile(context.TODO(), req); err != nil {
+					t.Fatalf("reconcile: %v", err)
+				}
+				out.Stat("oracle_evaluations", 2)
 			}
-			if _, err := pr.Reconcile(context.TODO(), req); err != nil {
-				t.Fatalf("reconcile: %v", err)
+			mode = 0
+			if calls != 1 || reloads != 1 {
+				out.Fail("reconciler-unrelated-event-reloads", fmt.Sprintf("ConfigReconciler: %d reconciles of an unchanged snapshot (listed in different orders) called the handler %d times and forced %d re-syncs (want 1, 1)", len(modes), calls, reloads), replay)
+			}
+			if pcalls != 1 || preloads != 1 {
+				out.Fail("reconciler-unrelated-event-reloads", fmt.Sprintf("PoolReconciler: %d reconciles of an unchanged snapshot (listed in different orders) called the handler %d times and forced %d re-syncs (want 1, 1)", len(modes), pcalls, preloads), replay)
 			}
 		}
 		out.Stat("reconciler_runs", 1)
-		out.Stat("oracle_evaluations", 8)
-		if calls != 1 || reloads != 1 {
-			out.Fail("reconciler-unrelated-event-reloads", fmt.Sprintf("ConfigReconciler: 4 reconciles of an unchanged snapshot called the handler %d times and forced %d re-syncs (want 1, 1)", calls, reloads), map[string]any{"snap": s})
+		if shared {
+			out.Stat("reconciler_runs_with_two_pools_in_one_namespace", 1)
 		}
-		if pcalls != 1 || preloads != 1 {
-			out.Fail("reconciler-unrelated-event-reloads", fmt.Sprintf("PoolReconciler: 4 reconciles of an unchanged snapshot called the handler %d times and forced %d re-syncs (want 1, 1)", pcalls, preloads), map[string]any{"snap": s})
+		for _, c := range cfgs[1:] {
+			if !reflect.DeepEqual(cfgs[0], c) {
+				out.Fail("reconciler-config-depends-on-list-order", fmt.Sprintf("ConfigReconciler: the configuration handed to the handler differs in %s between two list orders of the same objects (e.g. before and after a restart)", vDiffPart(cfgs[0], c)), replay)
+				break
+			}
+		}
+		for _, p := range pools[1:] {
+			if !reflect.DeepEqual(pools[0], p) {
+				part := "Pools.ByName"
+				if !reflect.DeepEqual(pools[0].ByNamespace, p.ByNamespace) {
+					part = "Pools.ByNamespace"
+				} else if !reflect.DeepEqual(pools[0].ByServiceSelector, p.ByServiceSelector) {
+					part = "Pools.ByServiceSelector"
+				}
+				out.Fail("reconciler-config-depends-on-list-order", fmt.Sprintf("PoolReconciler: the pools handed to the handler differ in %s between two list orders of the same objects (e.g. before and after a restart)", part), replay)
+				break
+			}
+		}
+		if len(pools) > 0 && len(cfgs) > 0 && !reflect.DeepEqual(cfgs[0].Pools.ByNamespace, pools[0].ByNamespace) {
+			out.Fail("reconciler-config-depends-on-list-order", "PoolReconciler and ConfigReconciler compute different Pools.ByNamespace from the same objects", replay)
 		}
 	}
 }
